@@ -143,7 +143,7 @@ func c09R6(a *A) {
 			if !ok || !res.Exec[c.Block()] || c.Common().StaticCallee() == nil {
 				return
 			}
-			switch c.Common().StaticCallee().Name() {
+			switch canonName(c) {
 			case "readLenEncInt":
 				nLen++
 				if nLen == 1 {
@@ -315,7 +315,10 @@ func allRowLoops(a *A, cd *codec) map[string][]*rowLoop {
 	out := map[string][]*rowLoop{}
 	isLen := func(f *ssa.Function) bool { return f == cd.lenFn || f == cd.valFn }
 	rows := w.method(w.Repl, "binlogEvent", "Rows")
-	out["Rows"] = findRowLoops(w, rows, isLen)
+	out["Rows"] = findRowLoopsDeep(w, rows, isLen)
+	for _, rl := range out["Rows"] {
+		a.touch(rl.Fn)
+	}
 	for _, n := range []string{"getValuesFromRow", "getIdentifiesFromRow"} {
 		f := w.fn(w.Root, n)
 		if f != nil {
@@ -376,7 +379,7 @@ func c09R3R4(a *A, cd *codec) {
 			if fn == "Rows" {
 				dataField = rl.Family // the event body; images are cut out of it afterwards
 			}
-			nullFam := familyOf(bitmapField(rl.Null))
+			nullFam := familyOf(rl.NullField())
 			a.check(dataField == rl.Family && nullFam == rl.Family, "C09-R4", fmt.Sprintf("family@%s[loop#%d]", fn, i+1), w.posOf(rl.Len),
 				"bytes, presence bitmap and NULL bitmap all belong to the "+rl.Family+" image", fmt.Sprintf("image families are mixed: bytes=%s presence=%s null=%s", dataField, rl.Family, nullFam))
 		}
